@@ -140,10 +140,14 @@ def entry_case(rng, tmpdir, i):
     st = gen.struct_type(schema)
     layout = rng.choice(["one", "split", "window"])
     entry = ["constructor", "from_sequence", "pack_seq", "series_dtype", "pack_lists", "from_lists", "astype", "parquet",
-             "constructor_chunked", "from_sequence_df", "take_fill", "reindex_fill"][(i // 2) % 12]
+             "constructor_chunked", "from_sequence_df", "take_fill", "reindex_fill", "setitem", "set_list_field"][(i // 2) % 14]
     if entry in ("take_fill", "reindex_fill"):
         return fill_entry_case(rng, entry, schema, rows, ragged)
+    if entry in ("setitem", "set_list_field"):
+        return assign_entry_case(rng, entry, schema, rows, ragged)
     no_nan = all(v == v for r in offered if r is not None for vs in r.values() for v in vs)
+    import random as _random
+    chunk_rng = _random.Random(rng.getrandbits(32))
 
     def run():
         if entry in ("constructor", "constructor_chunked"):
@@ -161,8 +165,15 @@ def entry_case(rng, tmpdir, i):
             return pd.Series([None if r is None else r for r in offered], dtype=NestedDtype(st)).array
         if entry in ("pack_lists", "from_lists"):
             present = [r if r is not None else {k: [] for k in names} for r in offered]
-            df = pd.DataFrame({name: pd.Series(pa.array([r[name] for r in present], type=pa.list_(gen.TYPES[ty])),
-                                               dtype=pd.ArrowDtype(pa.list_(gen.TYPES[ty]))) for name, ty in schema})
+            def list_col(name, ty):
+                whole = pa.array([r[name] for r in present], type=pa.list_(gen.TYPES[ty]))
+                if layout == "one" or len(present) < 2:
+                    return whole
+                # every column chunked on its OWN boundaries (the combine branch of pack_lists), or all alike (the aligned branch)
+                cuts = sorted(chunk_rng.sample(range(0, len(present) + 1), chunk_rng.randint(1, 2))) if layout == "split" else [len(present) // 2]
+                bounds = [0] + cuts + [len(present)]
+                return pa.chunked_array([whole.slice(a, b - a) for a, b in zip(bounds, bounds[1:])], type=whole.type)
+            df = pd.DataFrame({name: pd.Series(list_col(name, ty), dtype=pd.ArrowDtype(pa.list_(gen.TYPES[ty]))) for name, ty in schema})
             if entry == "pack_lists":
                 return pack_lists(df).array
             df["base"] = range(len(df))
@@ -211,6 +222,22 @@ def entry_case(rng, tmpdir, i):
             "sig": [entry, ragged, layout, len(rows), len(schema)], "trivial": False,
             "hist": {"op": "entry_" + entry, "ragged": ragged, "raised": raised}}
     return with_monitor(case, born)
+
+
+def assign_entry_case(rng, entry, schema, rows, ragged):
+    """element assignment and list-field assignment as entry points: a ragged value is refused AND the column is left as it was"""
+    inp = ao.mk_input(rng, content=(schema, rows), recipes=[l for l in LAYOUTS if l != "history"])
+    with Born() as born:
+        if entry == "setitem":
+            c = ao.op_setitem(rng, inp, force_ragged=ragged)
+        else:
+            c = ao.op_set_lists(rng, inp, rng.choice(["array", "with_list_field"]), malformed=ragged)
+    c["stream"] = "entry"
+    c["op"] = "entry_" + entry
+    c["meta"].update(ragged=ragged, entry=entry)
+    c["hist"] = {"op": "entry_" + entry, "ragged": ragged, "raised": c["meta"].get("impl_raised")}
+    c.pop("_result", None)
+    return with_monitor(c, born)
 
 
 def fill_entry_case(rng, entry, schema, rows, ragged):
